@@ -1,0 +1,40 @@
+//go:build verif
+
+package hermes
+
+// Verification hooks for the crop model (property C09): read-only accessors to the unexported
+// fields of CropSharedVars and exported wrappers around the unexported helpers of crop.go.
+// Nothing here changes the behaviour of the simulator.
+
+// VerifCropPrivate is a copy of the unexported fields of CropSharedVars.
+type VerifCropPrivate struct {
+	Temptyp int
+	Kc      [10]float64
+	Kcini   float64
+	Tendsum float64
+	UseBBCH bool
+}
+
+// VerifPrivate returns a copy of the unexported fields.
+func (l *CropSharedVars) VerifPrivate() VerifCropPrivate {
+	return VerifCropPrivate{Temptyp: l.temptyp, Kc: l.kc, Kcini: l.kcini, Tendsum: l.tendsum, UseBBCH: l.useBBCH}
+}
+
+// VerifSetPrivate sets the unexported fields (used to build kernel states for PhytoOut).
+func (l *CropSharedVars) VerifSetPrivate(p VerifCropPrivate) {
+	l.temptyp, l.kc, l.kcini, l.tendsum, l.useBBCH = p.Temptyp, p.Kc, p.Kcini, p.Tendsum, p.UseBBCH
+}
+
+// VerifRoot wraps root (crop.go): Qrez, potential rooting depth, cumulative root share per layer.
+func VerifRoot(veloc, tempsum, dz float64) (qrez, potentialRootingDepth float64, culRootPercPerLayer []float64) {
+	return root(veloc, tempsum, dz)
+}
+
+// VerifRadia wraps radia (crop.go). NOTE: radia mutates l.MANT, g.PARi, g.PARSUM, g.RADSUM and may
+// clamp g.SUND[TAG]; call it on copies.
+func VerifRadia(g *GlobalVarsMain, l *CropSharedVars) (DLE, DLP, GPHOT, MAINT float64) {
+	return radia(g, l)
+}
+
+// VerifVern wraps vern (crop.go). NOTE: vern adds to g.VERNTAGE and sets l.FV; call it on copies.
+func VerifVern(l *CropSharedVars, g *GlobalVarsMain) { vern(l, g) }
